@@ -229,6 +229,24 @@ func factsSession() {
 		} else {
 			boolFact(g, "addConnStoreBeforePublish", iStore < iIncr, "addConn: conns.Store happens before the incremented count is published")
 		}
+		// a connection handed over after the teardown is refused and closed: the test sits under addConnM, before the store,
+		// and closeAll sweeps under the same mutex
+		iLock := idx(evs, 0, "call", `^sb\.addConnM\.Lock\(\)`)
+		iTest := idx(evs, 0, "if", `sb\.broken.*== 1 \|\| sb\.session\.IsClosed\(\)|sb\.session\.IsClosed\(\) \|\| .*sb\.broken`)
+		refuses := false
+		if iLock >= 0 && iTest > iLock && iStore > iTest {
+			e := matchingEnd(evs, iTest)
+			refuses = e > iTest && e < iStore && countIn(evs, iTest, e, "call", `^conn\.Close\(\)$`) == 1 && countIn(evs, iTest, e, "return", ``) == 1
+		}
+		sweepLocked := false
+		if ca := fnOf(mx, "switchboard.closeAll"); ca != nil {
+			ce := events(ca)
+			il := idx(ce, 0, "call", `^sb\.addConnM\.Lock\(\)`)
+			id := idx(ce, 0, "defer", `^sb\.addConnM\.Unlock\(\)`)
+			ic := idx(ce, 0, "if", `CompareAndSwapUint32\(&sb\.broken, 0, 1\)`)
+			sweepLocked = il == 0 && id == 1 && ic > id
+		}
+		boolFact(g, "addConnRefusesAfterTeardown", refuses && sweepLocked, "addConn: under addConnM, a torn-down session (broken or closed) refuses and closes the connection before storing it; closeAll sweeps under addConnM")
 	} else {
 		unrec(g, "addConnStoreBeforePublish", "addConn not found")
 	}
